@@ -57,9 +57,18 @@ Fixpoint col_loop (seg : text) (target cols k : nat) : nat + nat :=
   | c :: seg' => if cols =? target then inl k else col_loop seg' target (cols + len_utf16 c) (S k)
   end.
 
-(* fn position_to_index(source, position) *)
+(* fn position_to_index(source, position) — the code as it is since 229693d (fix of F9).
+   After the `.take(line + 1).collect()`:
+     let line = position.line as usize;
+     if line >= 1 && newline_indices.len() == line
+         && (newline_indices[line - 1] < source.len() || position.character == 0)
+     { newline_indices.push(source.len()); }
+   `&&` short-circuits, so `newline_indices[line - 1]` is only evaluated when the vector has exactly
+   `line >= 1` elements: it is the last element and the index cannot panic. *)
 Definition position_to_index (source : text) (line col : nat) : res nat :=
-  let nl := firstn (line + 1) (newline_indices source) in           (* .take(line + 1).collect() *)
+  let nl0 := firstn (line + 1) (newline_indices source) in          (* .take(line + 1).collect() *)
+  let nl := if (1 <=? line) && (length nl0 =? line) && ((last nl0 0 <? length source) || (col =? 0))
+            then nl0 ++ [length source] else nl0 in                  (* .push(source.len()) *)
   let '(line_end_idx, nl1) := pop_or nl (length source) in
   let '(line_start_idx, _) := pop_or nl1 0 in
   do seg <- slice_chk source line_start_idx line_end_idx;
@@ -74,17 +83,11 @@ Definition range_to_span (source : text) (r : range) : res span :=
   do b <- position_to_index source l2 c2;
   span_new a b.                                                      (* Span::new panics on a > b *)
 
-(* ---- the code with fixes/F9.diff applied (NOT what /repo contains today) --------------------
-   after the `.take(line + 1).collect()`:
-     let line = position.line as usize;
-     if line >= 1 && newline_indices.len() == line
-         && (newline_indices[line - 1] < source.len() || position.character == 0)
-     { newline_indices.push(source.len()); }
-   (`newline_indices[line - 1]` is the last element: the vector has exactly `line >= 1` elements) *)
-Definition position_to_index_fixed (source : text) (line col : nat) : res nat :=
-  let nl0 := firstn (line + 1) (newline_indices source) in
-  let nl := if (1 <=? line) && (length nl0 =? line) && ((last nl0 0 <? length source) || (col =? 0))
-            then nl0 ++ [length source] else nl0 in
+(* ---- HISTORY: position_to_index as it was before 229693d (finding F9, fixed).  Kept because the
+   proofs reduce the current code to it outside the class the fix touches (PosConvProofs.fix_confined)
+   and for the regression witnesses in History/C08History.v.  NOT the current tree. *)
+Definition position_to_index_old (source : text) (line col : nat) : res nat :=
+  let nl := firstn (line + 1) (newline_indices source) in
   let '(line_end_idx, nl1) := pop_or nl (length source) in
   let '(line_start_idx, _) := pop_or nl1 0 in
   do seg <- slice_chk source line_start_idx line_end_idx;
@@ -93,10 +96,10 @@ Definition position_to_index_fixed (source : text) (line col : nat) : res nat :=
   | inr cols => if 0 <? cols then Ok line_end_idx else Ok line_start_idx
   end.
 
-Definition range_to_span_fixed (source : text) (r : range) : res span :=
+Definition range_to_span_old (source : text) (r : range) : res span :=
   let '((l1, c1), (l2, c2)) := r in
-  do a <- position_to_index_fixed source l1 c1;
-  do b <- position_to_index_fixed source l2 c2;
+  do a <- position_to_index_old source l1 c1;
+  do b <- position_to_index_old source l2 c2;
   span_new a b.
 
 (* diagnostics.rs:lint_to_code_actions — the replacement string of the TextEdit *)
@@ -120,10 +123,11 @@ Definition lookup_span (source : text) (r : range) : res span :=
 Definition selected (source : text) (r : range) (lints : list span) : res (list span) :=
   do q <- lookup_span source r; Ok (filter (fun l => overlaps l q) lints).
 
-Definition lookup_span_fixed (source : text) (r : range) : res span :=
-  do sp <- range_to_span_fixed source r; Ok (with_len sp 1).
-Definition selected_fixed (source : text) (r : range) (lints : list span) : res (list span) :=
-  do q <- lookup_span_fixed source r; Ok (filter (fun l => overlaps l q) lints).
+(* HISTORY (before 229693d), see position_to_index_old *)
+Definition lookup_span_old (source : text) (r : range) : res span :=
+  do sp <- range_to_span_old source r; Ok (with_len sp 1).
+Definition selected_old (source : text) (r : range) (lints : list span) : res (list span) :=
+  do q <- lookup_span_old source r; Ok (filter (fun l => overlaps l q) lints).
 
 (* ------------------------------------------------------------------------------------------ *)
 (*  the specification side (independent of the code above)                                      *)
@@ -229,7 +233,8 @@ Definition count_nl (t : text) : nat := length (filter is_nl t).
 (* lexicographic order on positions *)
 Definition pos_lt (p q : position) : Prop := fst p < fst q \/ (fst p = fst q /\ snd p < snd q).
 
-(* F9: the position lies on the final line of the text and that line is not line 0 *)
+(* the class of the FIXED finding F9 (the only positions where 229693d changed the answer): the
+   position lies on the final line of the text and that line is not line 0 *)
 Definition KnownClass (t : text) (line : nat) : Prop := 1 <= line /\ count_nl t = line.
 
 (* ------------------------------------------------------------------------------------------ *)
@@ -239,8 +244,8 @@ Definition run_span_to_range (t : text) (a b : nat) : option range :=
   match span_to_range t (mkspan a b) with Ok r => Some r | Panic _ => None end.
 Definition run_range_to_span (t : text) (l1 c1 l2 c2 : nat) : option (nat * nat) :=
   match range_to_span t ((l1, c1), (l2, c2)) with Ok s => Some (sstart s, send s) | Panic _ => None end.
-Definition run_range_to_span_fixed (t : text) (l1 c1 l2 c2 : nat) : option (nat * nat) :=
-  match range_to_span_fixed t ((l1, c1), (l2, c2)) with Ok s => Some (sstart s, send s) | Panic _ => None end.
+Definition run_range_to_span_old (t : text) (l1 c1 l2 c2 : nat) : option (nat * nat) :=
+  match range_to_span_old t ((l1, c1), (l2, c2)) with Ok s => Some (sstart s, send s) | Panic _ => None end.
 Definition run_resolve (t : text) (l c : nat) : option nat := resolve t (l, c).
 Definition run_resolve_lsp (t : text) (l c : nat) : option nat := resolve_lsp t (l, c).
 Definition run_client_apply_lsp (t : text) (l1 c1 l2 c2 : nat) (nt : text) : option text :=
